@@ -41,8 +41,20 @@ type Sxhash struct {
 // Call the function with the arguments provided.
 func (f *Sxhash) Call(s *slip.Scope, args slip.List, depth int) (result slip.Object) {
 	slip.CheckArgCount(s, depth, f, args, 1, 1)
+	obj := args[0]
+	// Numbers are equal if they have the same value no matter what the
+	// representation is so the value as a float is what is hashed. Adding
+	// zero turns -0.0 into 0.0.
+	switch tn := obj.(type) {
+	case slip.Real:
+		obj = slip.DoubleFloat(tn.RealValue() + 0.0)
+	case slip.Complex:
+		if imag(tn) == 0.0 {
+			obj = slip.DoubleFloat(real(tn) + 0.0)
+		}
+	}
 	var h uint64
-	for _, b := range sen.Bytes(slip.SimpleObject(args[0])) {
+	for _, b := range sen.Bytes(slip.SimpleObject(obj)) {
 		h += uint64(0xdf & b) // mask 0x20 to ignore ascii case, for others it doesn't matter
 	}
 	return slip.Fixnum(h & 0x7fffffffffffffff)
